@@ -521,6 +521,8 @@ def run(ctx: core.Context) -> int:
             pitems.append((threshold, with_drain, 4 if quick else 5, 11 if quick else 14))
     for r in core.pmap(w_pipe, pitems, ctx.jobs):
         ctx.sub('pipe').merge(r)
+    for r in core.pmap(w_pools, core.split(pool_configs(quick), ctx.jobs), ctx.jobs):
+        ctx.sub('pools').merge(r)
     for name in ('queue_bfs', 'queue_host', 'pipe'):
         s = ctx.sub(name)
         states += len(s.sets.get('states', ()))
@@ -533,7 +535,7 @@ def run(ctx: core.Context) -> int:
             'BFS over operation histories (enqueue per connection, completion reports with counts {0,1,2,exact,exact+1} per '
             'connection and for an unknown handle, flush, drain) on the real DataPacketQueue for buffer counts 1..3 and 2-3 '
             'connections, and the same alphabet injected as HCI events into a real Host; BFS over write/pause/resume/loop-step/'
-            'sink-drain-completion histories of the real FlowControlAsyncPipe. States are deduplicated by a canonical key of '
+            'sink-drain-completion histories of the real FlowControlAsyncPipe; pools: a real Host that learnt its buffer pools from a real Controller (dedicated LE pool or one pool shared with BR/EDR, sizes 1..3) with an LE and a BR/EDR connection sending at the same time. States are deduplicated by a canonical key of '
             '(reference-model state, implementation fields); distinct_nontrivial = distinct canonical states; every distinct '
             'state is additionally run to completion (closing phase). Note: BFS partitions by first operation, so a state '
             'reachable via two different first operations is counted once per partition in evaluations but once in distinct.'
@@ -550,6 +552,9 @@ def run(ctx: core.Context) -> int:
 def replay(v: core.Violation):
     c = v.case
     msgs = []
+    if v.check.startswith('pool_'):
+        r, _ = run_pools(c['cfg'])
+        return [r[1]] if r else []
     if v.check.startswith('pipe'):
         loop = VLoop()
         with loop:
@@ -574,3 +579,123 @@ def replay(v: core.Violation):
     finally:
         dispose(loop)
     return msgs
+
+
+# ---------------------------------------------------------------------------
+# buffer pools as a real Host learns them from a real Controller (dedicated LE buffers, or one pool
+# shared by LE and BR/EDR), one LE and one BR/EDR connection carrying traffic at the same time
+# ---------------------------------------------------------------------------
+def run_pools(cfg):
+    """cfg: dict(shared, n_le, n_cl, k_le, k_cl, order).  Returns (violation or None, observations)."""
+    from bumble import hci
+    from ..harness.devices import World
+
+    attrs = {0: {'total_num_acl_data_packets': cfg['n_cl'], 'acl_data_packet_length': 27}}
+    if cfg['shared']:
+        attrs[0].update({'le_acl_data_packet_length': 0, 'total_num_le_acl_data_packets': 0})
+    else:
+        attrs[0].update({'le_acl_data_packet_length': 27, 'total_num_le_acl_data_packets': cfg['n_le']})
+    with World(2, classic=True, le=True, controller_attrs=attrs) as w:
+        w.power_on()
+        le_c, _ = w.connect_le()
+        cl_c, _ = w.connect_classic()
+        w.settle()
+        host = w.hosts[0]
+        handles = {le_c.handle: 'le', cl_c.handle: 'cl'}
+        sent = []  # transport of every ACL packet handed to the controller, in order
+        completed = {'le': 0, 'cl': 0}
+
+        class Sink:
+            def on_packet(self, data):
+                if data[0] == 0x02:
+                    h = (data[1] | data[2] << 8) & 0x0FFF
+                    sent.append(handles.get(h, '?'))
+                # nothing is forwarded: the controller never sees it, completions are injected below
+
+        host.hci_sink = Sink()
+
+        def in_flight(t=None):
+            return sum(1 for x in sent if t is None or x == t) - (sum(completed.values()) if t is None else completed[t])
+
+        def check(where):
+            if cfg['shared']:
+                if in_flight() > cfg['n_cl']:
+                    return ('pool_over_credit', f'{in_flight()} ACL packets in flight to a controller whose single shared pool has {cfg["n_cl"]} buffers ({where})')
+            else:
+                if in_flight('le') > cfg['n_le']:
+                    return ('pool_over_credit', f'{in_flight("le")} LE packets in flight, LE pool has {cfg["n_le"]} ({where})')
+                if in_flight('cl') > cfg['n_cl']:
+                    return ('pool_over_credit', f'{in_flight("cl")} BR/EDR packets in flight, BR/EDR pool has {cfg["n_cl"]} ({where})')
+            return None
+
+        todo = {'le': cfg['k_le'], 'cl': cfg['k_cl']}
+        seq = []
+        if cfg['order'] == 'le_first':
+            seq = ['le'] * cfg['k_le'] + ['cl'] * cfg['k_cl']
+        elif cfg['order'] == 'cl_first':
+            seq = ['cl'] * cfg['k_cl'] + ['le'] * cfg['k_le']
+        else:
+            a, b = ['le'] * cfg['k_le'], ['cl'] * cfg['k_cl']
+            while a or b:
+                if a:
+                    seq.append(a.pop())
+                if b:
+                    seq.append(b.pop())
+        for i, t in enumerate(seq):
+            conn = le_c if t == 'le' else cl_c
+            host.send_l2cap_pdu(conn.handle, 0x0040, bytes([i, 1, 2]))
+            w.settle()
+            v = check(f'after queueing packet {i} ({t})')
+            if v:
+                return v, sent
+        # the controller completes one packet at a time (oldest first); everything must get sent
+        total = len(seq)
+        for _ in range(total * 2 + 4):
+            pending = [t for t in ('le', 'cl') if in_flight(t) > 0]
+            if not pending:
+                break
+            # complete the transport of the oldest uncompleted packet
+            done = dict(completed)
+            t = None
+            for x in sent:
+                if done[x] > 0:
+                    done[x] -= 1
+                    continue
+                t = x
+                break
+            h = le_c.handle if t == 'le' else cl_c.handle
+            completed[t] += 1
+            host.on_packet(bytes(hci.HCI_Number_Of_Completed_Packets_Event(connection_handles=[h], num_completed_packets=[1])))
+            w.settle()
+            v = check('while completing')
+            if v:
+                return v, sent
+        if len(sent) != total:
+            return ('pool_stall', f'{total - len(sent)} of {total} packets never handed to the controller although every packet in flight was completed'), sent
+        if sorted(sent) != sorted(seq):
+            return ('pool_wrong_packets', f'sent {sent} for {seq}'), sent
+        return None, sent
+
+
+def w_pools(cfgs):
+    st = core.Stats('pools')
+    for cfg in cfgs:
+        v, sent = run_pools(cfg)
+        st.case(cfg, None)
+        st.add('outcomes', core.digest(sent))
+        if v:
+            st.violation(v[0], {'kind': v[0], 'shared_pool': cfg['shared']}, f'{cfg}: {v[1]}', {'cfg': cfg})
+        if len(st.samples) < 2:
+            st.samples.append({'cfg': cfg, 'sent_order': sent})
+    return st
+
+
+def pool_configs(quick):
+    out = []
+    for shared in (True, False):
+        for n_cl in (1, 2, 3):
+            for n_le in ((0,) if shared else (1, 2)):
+                for k_le, k_cl in ((1, 1), (2, 2), (n_cl + 1, n_cl + 1), (0, n_cl + 2), (n_cl + 2, 0)) + (() if quick else ((4, 1), (1, 4))):
+                    for order in ('le_first', 'cl_first', 'interleaved'):
+                        out.append({'shared': shared, 'n_le': n_le, 'n_cl': n_cl, 'k_le': k_le, 'k_cl': k_cl, 'order': order})
+    return out
